@@ -30,6 +30,7 @@ type Clnt struct {
 	tagpool  *Pool
 	reqout   chan *Req
 	done     chan bool
+	closed   chan bool // closed when the receiver shuts the client down
 	reqfirst *Req
 	reqlast  *Req
 	err      error
@@ -109,7 +110,12 @@ func (clnt *Clnt) Rpcnb(r *Req) error {
 	clnt.Unlock()
 
 	verifPoint("rpcnb.enqueued", r)
-	clnt.reqout <- r
+	select {
+	case clnt.reqout <- r:
+	case <-clnt.closed:
+		// the writer is gone; the receiver reports the error to every
+		// request on the list, this one included
+	}
 	verifPoint("rpcnb.sent", r)
 	return nil
 }
@@ -117,7 +123,7 @@ func (clnt *Clnt) Rpcnb(r *Req) error {
 func (clnt *Clnt) Rpc(tc *Fcall) (rc *Fcall, err error) {
 	r := clnt.ReqAlloc()
 	r.Tc = tc
-	r.Done = make(chan *Req)
+	r.Done = make(chan *Req, 1)
 	err = clnt.Rpcnb(r)
 	if err != nil {
 		return
@@ -248,6 +254,7 @@ func (clnt *Clnt) recv() {
 
 closed:
 	verifPoint("clnt.recv.closing", clnt)
+	close(clnt.closed)
 	clnt.done <- true
 	verifPoint("clnt.recv.fanout", clnt)
 
@@ -340,6 +347,7 @@ func NewClnt(c net.Conn, msize uint32, dotu bool) *Clnt {
 	clnt.tagpool = NewPool(0, uint32(NOTAG))
 	clnt.reqout = make(chan *Req)
 	clnt.done = make(chan bool)
+	clnt.closed = make(chan bool)
 	clnt.reqchan = make(chan *Req, 16)
 	clnt.tchan = make(chan *Fcall, 16)
 
